@@ -81,10 +81,21 @@ type c14Sentinel string
 
 const c14Budget = 4096 // calls of one kind per query; the rank walk needs O(nbins <= 50)
 
+// c14BudgetFor: the budget of a wide harness histogram grows with the bin
+// count (64 calls per bin); up to 64 bins it is the flat 4096. One Counts() and one
+// BinToValue() call per bin, several times over, stay inside it.
+func c14BudgetFor(nbins int) int {
+	if b := 64 * nbins; b > c14Budget {
+		return b
+	}
+	return c14Budget
+}
+
 type c14Fake struct {
 	under, over uint
 	counts      []uint
 	fn          int
+	budget      int
 	nCounts     int
 	nB2V        int
 	nAdd        int
@@ -97,8 +108,8 @@ func (f *c14Fake) Add(x float64) {
 
 func (f *c14Fake) Counts() (uint, []uint, uint) {
 	f.nCounts++
-	if f.nCounts > c14Budget {
-		panic(c14Sentinel(fmt.Sprintf("step budget exceeded: more than %d Counts() calls in one query", c14Budget)))
+	if f.nCounts > f.budget {
+		panic(c14Sentinel(fmt.Sprintf("step budget exceeded: more than %d Counts() calls in one query", f.budget)))
 	}
 	return f.under, f.counts, f.over
 }
@@ -115,8 +126,8 @@ func c14FakeValue(fn int, t float64) float64 {
 
 func (f *c14Fake) BinToValue(t float64) float64 {
 	f.nB2V++
-	if f.nB2V > c14Budget {
-		panic(c14Sentinel(fmt.Sprintf("step budget exceeded: more than %d BinToValue() calls in one query", c14Budget)))
+	if f.nB2V > f.budget {
+		panic(c14Sentinel(fmt.Sprintf("step budget exceeded: more than %d BinToValue() calls in one query", f.budget)))
 	}
 	return c14FakeValue(f.fn, t)
 }
@@ -196,6 +207,20 @@ func c14JudgeQ(w *mon.W, x *c14QCtx, qsIn []float64, iqr bool) {
 		w.HitIf(len(ivs) == 0, "ranked-sample-outside-bins")
 		w.HitIf(len(ivs) > 0 && !nanOK, "ranked-sample-inside-bins")
 		w.HitIf(q == 1 && x.over == 0 && len(ivs) > 0, "q=1-no-overflow")
+		if nb := len(x.counts); nb > 50 {
+			// wide histograms: where the ranked sample sits (reference side only)
+			for _, iv := range ivs {
+				w.HitIf(iv.Bin >= 64, "wide:ranked-sample-beyond-bin-64")
+				w.HitIf(iv.Bin >= 1024, "wide:ranked-sample-beyond-bin-1024")
+				w.HitIf(iv.Bin >= 4096, "wide:ranked-sample-beyond-bin-4096")
+				w.HitIf(iv.K == iv.C-1 && iv.Bin+1 < nb && x.counts[iv.Bin+1] == 0, "wide:ranked-sample-last-of-bin-empty-bin-above")
+				w.HitIf(iv.K == 0 && iv.Bin > 0 && x.counts[iv.Bin-1] == 0, "wide:ranked-sample-first-of-bin-empty-bin-below")
+				w.HitIf(iv.Bin == nb-1, "wide:ranked-sample-in-last-bin")
+				w.HitIf(2*iv.Bin > nb, "wide:ranked-sample-in-upper-half-of-bins")
+			}
+			w.HitIf(q == 1 && x.over == 0 && x.counts[nb-1] == 0 && total > 0, "wide:q=1-top-bin-empty")
+			w.HitIf(q > 0.5 && len(ivs) > 0, "wide:q>1/2-in-bins")
+		}
 		if amb {
 			w.Ambiguous()
 			w.Note("rank-product-near-integer")
@@ -309,6 +334,27 @@ func c14Ivs(x *c14QCtx, ivs []ref.QInterval) string {
 	return s
 }
 
+// c14CountsStr prints a count vector; a wide one (more than 64 bins) as its
+// size and its occupied bins, the first 12 of them spelled out.
+func c14CountsStr(cs []uint64) string {
+	if len(cs) <= 64 {
+		return fmt.Sprint(cs)
+	}
+	occ, s := 0, ""
+	for i, c := range cs {
+		if c > 0 {
+			if occ < 12 {
+				s += fmt.Sprintf(" %d:%d", i, c)
+			}
+			occ++
+		}
+	}
+	if occ > 12 {
+		s += " ..."
+	}
+	return fmt.Sprintf("[%d bins, %d occupied, bin:count%s]", len(cs), occ, s)
+}
+
 // c14DerivedQs: rank-boundary arguments j/total around the under/bins and
 // bins/over transitions and the ends.
 func c14DerivedQs(under, over, total uint64) []float64 {
@@ -336,14 +382,14 @@ func c14DerivedQs(under, over, total uint64) []float64 {
 
 func c14JudgeFake(w *mon.W, c c14Case) {
 	n := len(c.Counts)
-	f := &c14Fake{under: uint(c.Under), over: uint(c.Over), fn: c.Fn, counts: make([]uint, n)}
+	f := &c14Fake{under: uint(c.Under), over: uint(c.Over), fn: c.Fn, counts: make([]uint, n), budget: c14BudgetFor(n)}
 	for i, v := range c.Counts {
 		f.counts[i] = uint(v)
 	}
 	saved := append([]uint(nil), f.counts...)
 	scale := math.Max(math.Abs(c14FakeValue(c.Fn, 0)), math.Abs(c14FakeValue(c.Fn, float64(n))))
 	x := &c14QCtx{h: f, under: c.Under, over: c.Over, counts: c.Counts,
-		desc: fmt.Sprintf("harness histogram{under=%d counts=%v over=%d fn=%d}", c.Under, c.Counts, c.Over, c.Fn),
+		desc: fmt.Sprintf("harness histogram{under=%d counts=%s over=%d fn=%d}", c.Under, c14CountsStr(c.Counts), c.Over, c.Fn),
 		val: func(bin int, k, cc uint64) float64 {
 			return c14FakeValue(c.Fn, float64(bin)+float64(k)/float64(cc))
 		},
@@ -382,6 +428,7 @@ func c14JudgeFake(w *mon.W, c c14Case) {
 	w.HitIf(n == 0, "fake:no-bins")
 	w.HitIf(nonEmptyBins < n, "fake:empty-bin")
 	w.HitIf(nonEmptyBins > 1, "fake:several-bins-occupied")
+	c14WideClasses(w, "fake", c.Counts, total)
 	qs := mon.Un(c.Qs)
 	if c.QDerive {
 		qs = append(qs, c14DerivedQs(c.Under, c.Over, total)...)
@@ -395,6 +442,36 @@ func c14JudgeFake(w *mon.W, c c14Case) {
 	if w.WantSample() && n > 0 && total > 0 {
 		w.Sample(map[string]any{"kind": "fake", "under": c.Under, "counts": c.Counts, "over": c.Over, "queries": len(qs)})
 	}
+}
+
+// c14WideClasses: size classes of a histogram state with more than 50 bins or
+// at least 2^16 samples (from the count vector of the reference side).
+func c14WideClasses(w *mon.W, kind string, counts []uint64, total uint64) {
+	n := len(counts)
+	w.HitIf(total >= 1<<16, "wide:"+kind+"-total>=2^16")
+	w.HitIf(total >= 1<<32, "wide:"+kind+"-total>=2^32")
+	if n <= 50 {
+		return
+	}
+	w.Hit("wide:" + kind + "-bins>50")
+	w.HitIf(n > 64, "wide:"+kind+"-bins>64")
+	w.HitIf(n >= 1000, "wide:"+kind+"-bins>=1000")
+	w.HitIf(n >= 4096, "wide:"+kind+"-bins>=4096")
+	w.HitIf(n >= 10000, "wide:"+kind+"-bins>=10000")
+	w.HitIf(n&(n-1) == 0 || (n-1)&(n-2) == 0 || n%1000 <= 1, "wide:"+kind+"-bins-at-or-one-past-round-number")
+	occ, gaps := 0, 0 // gaps: occupied bins with an empty bin directly above
+	for i, c := range counts {
+		if c > 0 {
+			occ++
+			if i+1 < n && counts[i+1] == 0 {
+				gaps++
+			}
+		}
+	}
+	w.HitIf(occ == n, "wide:"+kind+"-dense-every-bin-occupied")
+	w.HitIf(occ > 0 && 4*occ <= n, "wide:"+kind+"-sparse-under-quarter-occupied")
+	w.HitIf(gaps >= 8, "wide:"+kind+"-8-or-more-gaps-above-occupied-bins")
+	w.HitIf(total > 0 && counts[n-1] == 0, "wide:"+kind+"-top-bin-empty")
 }
 
 // ---------------------------------------------------------------------------
@@ -496,7 +573,7 @@ func c14JudgeHist(w *mon.W, c c14Case) {
 		if n < nExp-1 || n > nExp+1 {
 			w.Note("log:bin-count-differs-from-ceil(m*log_b(max))")
 		}
-		if n < 1 || n > 400 {
+		if n < 1 || n > 5000 {
 			// the statement does not fix the bin count of a LogHist; without a
 			// bin there is nothing to judge
 			w.Note("log:skipped-no-bins")
@@ -592,7 +669,7 @@ func c14JudgeHist(w *mon.W, c c14Case) {
 	runQ := func(k int) {
 		// k values have been added
 		x := &c14QCtx{h: h, under: cur[0], over: cur[n+1], counts: cur[1 : n+1],
-			desc: fmt.Sprintf("%s after %d Adds {under=%d counts=%v over=%d}", desc, k, cur[0], cur[1:n+1], cur[n+1]),
+			desc: fmt.Sprintf("%s after %d Adds {under=%d counts=%s over=%d}", desc, k, cur[0], c14CountsStr(cur[1:n+1]), cur[n+1]),
 			val:  hr.ValueFrac,
 			tol:  hr.Tol,
 			mk: func(qq []float64, iqr bool) c14Case {
@@ -616,7 +693,13 @@ func c14JudgeHist(w *mon.W, c c14Case) {
 				return ""
 			},
 		}
+		if n > 50 || k >= 1<<16 {
+			c14WideClasses(w, c.Kind, cur[1:n+1], uint64(k))
+		}
 		all := qs
+		if n > 50 {
+			all = append(append([]float64(nil), qs...), c14BinEndQs(mon.NewRand(mon.NewHasher().S(desc).I(k).Sum()), cur[0], cur[1:n+1], uint64(k))...)
+		}
 		if c.QDerive {
 			all = append(append([]float64(nil), qs...), c14DerivedQs(cur[0], cur[n+1], uint64(k))...)
 		}
@@ -753,6 +836,8 @@ func c14JudgeHist(w *mon.W, c c14Case) {
 		w.Hit("empty-stream")
 	}
 	w.HitIf(len(xs) == 500, "stream-of-500")
+	w.HitIf(len(xs) >= 10000, "wide:stream>=10000")
+	w.HitIf(len(xs) > 1<<16, "wide:stream>2^16")
 	w.HitIf(gridAt < 0 && len(xs) > 0, "grid:never")
 	batch := c.Batch
 	if batch < 1 {
@@ -1347,8 +1432,190 @@ func c14History(rng *mon.Rand, c *c14Case, L int) {
 	}
 }
 
+// ---------------------------------------------------------------------------
+// wide histograms and long streams: sizes beyond the 1..50 bins / 500 values
+// of the base classes
+
+// c14BinEndQs: arguments j/total whose rank j is that of the last sample of an
+// occupied bin, and of the first sample of the next one (the ranks at which a
+// rank walk, in whatever direction or block size, has to stop or go on), for
+// up to 10 occupied bins: the first, the last, and bins drawn over the whole
+// width.
+func c14BinEndQs(rng *mon.Rand, under uint64, counts []uint64, total uint64) []float64 {
+	if total == 0 {
+		return nil
+	}
+	var occ []int
+	for i, c := range counts {
+		if c > 0 {
+			occ = append(occ, i)
+		}
+	}
+	if len(occ) == 0 {
+		return nil
+	}
+	pick := map[int]bool{occ[0]: true, occ[len(occ)-1]: true}
+	for k := 0; k < 8; k++ {
+		pick[occ[rng.Intn(len(occ))]] = true
+	}
+	var out []float64
+	cum := under
+	for i, c := range counts {
+		cum += c
+		if c > 0 && pick[i] {
+			for _, j := range []uint64{cum, cum + 1} {
+				if j <= total {
+					out = append(out, float64(j)/float64(total))
+				}
+			}
+		}
+	}
+	return out
+}
+
+// c14WideBins draws a bin count in 51..hi: log-uniform, at or next to a round
+// number, or a multiple of a block size (plus or minus a little).
+func c14WideBins(rng *mon.Rand, hi int) int {
+	n := 0
+	switch rng.Intn(3) {
+	case 0:
+		n = int(rng.LogUniform(51, float64(hi)+1))
+	case 1:
+		n = rng.PickI(64, 100, 128, 200, 256, 500, 512, 1000, 1024, 2000, 2048, 4096, 5000, 8192, 10000, 16384, 20000, 32768, 50000, 65536) + rng.PickI(-1, 0, 0, 1, 2)
+	default:
+		n = rng.PickI(16, 32, 64, 128, 256, 1000)*rng.Range(2, 20) + rng.PickI(-1, 0, 1, rng.Range(2, 15))
+	}
+	if n > hi {
+		n = hi - rng.Intn(3)
+	}
+	if n < 51 {
+		n = 51
+	}
+	return n
+}
+
+// c14WideLen draws a stream length in 1..hi (from one value in thousands of
+// bins to many per bin), in one draw of four at or one past a round number.
+func c14WideLen(rng *mon.Rand, lo, hi int) int {
+	L := int(rng.LogUniform(float64(lo), float64(hi)+1))
+	if rng.Intn(4) == 0 {
+		L = rng.PickI(1000, 1024, 4096, 5000, 10000, 16384, 32768, 50000, 65536, 100000) + rng.PickI(0, 1)
+	}
+	if L > hi {
+		L = hi
+	}
+	if L < lo {
+		L = lo
+	}
+	return L
+}
+
+// c14WideCounts fills the count vector of a wide harness histogram: dense,
+// sparse (mostly one sample per occupied bin), runs of occupied and of empty
+// bins, a few occupied bins, empty ends, or a few very large counts.
+func c14WideCounts(rng *mon.Rand, nb int) []uint64 {
+	cs := make([]uint64, nb)
+	small := func() uint64 {
+		if rng.Intn(5) > 0 {
+			return 1
+		}
+		return uint64(rng.Range(2, 6))
+	}
+	sparse := func(lo, hi int, p float64) {
+		for i := lo; i < hi; i++ {
+			if rng.Float64() < p {
+				cs[i] = small()
+			}
+		}
+	}
+	switch rng.Intn(8) {
+	case 0:
+		cmax := rng.PickI(1, 3, 20, 200)
+		for i := range cs {
+			cs[i] = uint64(rng.Range(1, cmax))
+		}
+	case 1, 2, 3:
+		sparse(0, nb, rng.LogUniform(1/float64(nb), 0.5))
+	case 4:
+		on := rng.Bool()
+		p := rng.Pick(1, 1, 0.5, 0.1)
+		for i := 0; i < nb; on = !on {
+			run := int(rng.LogUniform(1, float64(nb)/2+2))
+			if on {
+				hi := i + run
+				if hi > nb {
+					hi = nb
+				}
+				sparse(i, hi, p)
+			}
+			i += run
+		}
+	case 5:
+		for k := rng.Range(1, 3); k > 0; k-- {
+			cs[rng.Intn(nb)] += uint64(rng.PickI(1, 2, 10, 1000))
+		}
+	case 6:
+		lo := int(rng.LogUniform(1, float64(nb))) - 1
+		hi := nb - int(rng.LogUniform(1, float64(nb)))
+		sparse(lo, hi, rng.Pick(1, 0.5, 0.05))
+	default:
+		sparse(0, nb, rng.LogUniform(1/float64(nb), 0.5))
+		for k := rng.Range(1, 8); k > 0; k-- {
+			cs[rng.Intn(nb)] += uint64(rng.LogUniform(1000, 6e9))
+		}
+	}
+	switch rng.Intn(6) {
+	case 0:
+		cs[nb-1] = 0
+	case 1:
+		cs[nb-1] = small()
+	case 2:
+		cs[0] = small()
+	}
+	return cs
+}
+
+// c14Spread overlays a generated stream: 7 values of 8 are moved inside the
+// binned range, over the whole of it or over a part (so that stretches of
+// bins stay empty); pos maps a position in [0,1) to a value.
+func c14Spread(rng *mon.Rand, xs []float64, pos func(u float64) float64) {
+	lo, hi := 0.0, 1.0
+	switch rng.Intn(3) {
+	case 0:
+		return
+	case 1:
+		a, b := rng.Float64(), rng.Float64()
+		lo, hi = math.Min(a, b), math.Max(a, b)
+	}
+	for i := range xs {
+		if rng.Intn(8) > 0 {
+			xs[i] = pos(rng.Uniform(lo, hi))
+		}
+	}
+}
+
+// c14WideHistory: like c14History; Counts() is read often enough to see
+// every Add of a short stream, and seldom enough to bound the copying for a
+// long stream into many bins; up to 3 quantile checkpoints.
+func c14WideHistory(rng *mon.Rand, c *c14Case, n, L int) {
+	c14History(rng, c, L)
+	if c.Batch == 500 {
+		c.Batch = L + 1
+	}
+	if rng.Intn(3) == 0 {
+		c.Batch = rng.PickI(64, 1000, 4096)
+	}
+	if min := n*L/10000000 + 1; c.Batch < min {
+		c.Batch = min
+	}
+	c.QEvery = 0
+	if rng.Intn(3) == 0 && L >= 4 {
+		c.QEvery = L/rng.Range(2, 4) + 1
+	}
+}
+
 func c14Run(r *mon.Run) {
-	r.Rule("LinearHist: 1..50 bins, min<max of either sign, magnitudes 1e-290..1e290 and (1 shape in 12) up to +-8e307 with ranges up to 1.6e308, range/scale >= 1e-6, plus dyadic shapes (power-of-two bin count and width) judged with a zero window; LogHist: bases 2..10, m 1..4, 1..50 bins for every base and m (top edge up to 1e50); streams of 0..500 values from 1e60 ranges below to 1e60 ranges above, plus values of a size independent of the shape (+-1e100..+-MaxFloat64, for LinearHist aimed at a bin index beyond float64; LogHist also down to 5e-324), dense within one bin width below the first edge and around every edge (LogHist: also 1.25..40 window half-widths off an edge), LogHist streams with about 1 in 60 values zero, -0 or negative (reference: under count); LinearHist streams with about 1 in 40 values 0 or -0 whatever the range, every stream with about 1 value in 20 an immediate repeat of the previous one, in 1 case of 4 the first value (1 in 3 of those: the first 2..6 values) is 0 / -0 and in 1 case of 8 it is +-MaxFloat64, so that the first Add on a fresh histogram is a value an uninitialised remembered sample would match; in 1 case of 3 Counts() of the fresh histogram is not read (start state all zero by definition; LogHist bin count from a second instance) so that the first Adds run on an untouched histogram; after every Add (in 3 of 10 cases: after every batch of 2..40 Adds or of the whole stream) a private copy of Counts() must differ from the previous one in exactly one counter by +1, and that counter must be the reference slot (384-bit edges; window 1e-12*max(|min|,|max|) linear, 32*2^-52*max(1,ln edge) relative logarithmic: either side accepted; per batch: no counter decreases and the increments match the multiset of reference slots); BinToValue: edges, eighths grid strictly increasing, interpolation law, 12 reference points per shape, run on the fresh histogram, mid-stream, after the stream, after the final queries or never (the harness calls BinToValue for nothing else before that point); HistogramQuantile on ~20 arguments per checkpoint incl. 0, 1 and rank boundaries j/total: each call judged against both rank readings (NaN iff a reading is outside the bins, value inside the rank interval of a reading), all answers on one histogram state explained by one and the same reading (else quantile-mixed-readings), non-decreasing, counters untouched; HistogramIQR = Q(.75)-Q(.25). Harness-defined histograms: every count vector (under, <=3 bins, over each 0..3; thorough 0..4 with <=4 bins) x q=k/12 and k/7, three BinToValue shapes, call budget 4096. Non-trivial: hits a class; distinct by hash of (shape, stream, queries).")
+	r.Rule("LinearHist: 1..50 bins, min<max of either sign, magnitudes 1e-290..1e290 and (1 shape in 12) up to +-8e307 with ranges up to 1.6e308, range/scale >= 1e-6, plus dyadic shapes (power-of-two bin count and width) judged with a zero window; LogHist: bases 2..10, m 1..4, 1..50 bins for every base and m (top edge up to 1e50); streams of 0..500 values from 1e60 ranges below to 1e60 ranges above, plus values of a size independent of the shape (+-1e100..+-MaxFloat64, for LinearHist aimed at a bin index beyond float64; LogHist also down to 5e-324), dense within one bin width below the first edge and around every edge (LogHist: also 1.25..40 window half-widths off an edge), LogHist streams with about 1 in 60 values zero, -0 or negative (reference: under count); LinearHist streams with about 1 in 40 values 0 or -0 whatever the range, every stream with about 1 value in 20 an immediate repeat of the previous one, in 1 case of 4 the first value (1 in 3 of those: the first 2..6 values) is 0 / -0 and in 1 case of 8 it is +-MaxFloat64, so that the first Add on a fresh histogram is a value an uninitialised remembered sample would match; in 1 case of 3 Counts() of the fresh histogram is not read (start state all zero by definition; LogHist bin count from a second instance) so that the first Adds run on an untouched histogram; after every Add (in 3 of 10 cases: after every batch of 2..40 Adds or of the whole stream) a private copy of Counts() must differ from the previous one in exactly one counter by +1, and that counter must be the reference slot (384-bit edges; window 1e-12*max(|min|,|max|) linear, 32*2^-52*max(1,ln edge) relative logarithmic: either side accepted; per batch: no counter decreases and the increments match the multiset of reference slots); BinToValue: edges, eighths grid strictly increasing, interpolation law, 12 reference points per shape, run on the fresh histogram, mid-stream, after the stream, after the final queries or never (the harness calls BinToValue for nothing else before that point); HistogramQuantile on ~20 arguments per checkpoint incl. 0, 1 and rank boundaries j/total: each call judged against both rank readings (NaN iff a reading is outside the bins, value inside the rank interval of a reading), all answers on one histogram state explained by one and the same reading (else quantile-mixed-readings), non-decreasing, counters untouched; HistogramIQR = Q(.75)-Q(.25). Harness-defined histograms: every count vector (under, <=3 bins, over each 0..3; thorough 0..4 with <=4 bins) x q=k/12 and k/7, three BinToValue shapes, call budget 4096. Wide histograms and long streams (sizes beyond the base classes, through the same judges): harness-defined histograms of 51..70000 bins (thorough 300000; log-uniform, at or next to powers of two / 1000 / 5000 / 10000 ..., multiples of block sizes 16..1000 plus or minus a little; call budget 64 per bin) filled densely, sparsely (mostly one sample per occupied bin), in runs of occupied and empty bins, with a few occupied bins, with empty ends or with a few counts up to 6e9 (totals past 2^16 and 2^32), and 1..50 bins with counts up to 2e10; LinearHist of 51..20000 bins (thorough 70000) and LogHist of 51 bins up to the widest shape whose top edge is a float64 (4095 bins for base 2, m 4), streams of 1..30000 values (thorough 200000) log-uniform or at / one past a round number, 7 of 8 values spread over the whole binned range or a part of it, and 1..50-bin shapes with streams of 501..90000 values; Counts() read per Add or per batch (at least every 1e7/bins Adds), up to 3 quantile checkpoints; on every wide state also the arguments j/total for the rank of the last sample of up to 10 occupied bins and the rank after it. Non-trivial: hits a class; distinct by hash of (shape, stream, queries).")
 	r.Assume("ambiguity: a value within 1e-12*max(|min|,|max|) (linear) or 32*2^-52*max(1,ln edge) relative (log: the error bound of any float64 evaluation of m*log_b(x) - ln, log2, log10 based - or of a comparison with float64 edges, with a factor >= 3.5 to spare; see ref.LogWindow) of a reference edge may be counted on either side; zero window only for dyadic linear shapes with exact x-min, where every float64 formula for the bin index is exact",
 		"rank: g=floor(q*total) in exact arithmetic; also accepted: the floor of the correctly rounded float64 product, and k when q is exactly float64(k)/float64(total); the ranked sample is the one of 0-based index g throughout or g-1 throughout (per histogram state; where a reading names no sample at all - 0-based at q=1, 1-based for q*total<1 - NaN and clamping to the last/first sample both count as that reading); a numeric answer must lie in [BinToValue(bin+k/c), BinToValue(bin+(k+1)/c)] for the k-th of c samples of its bin under one of the readings",
 		"domain: all finite values up to +-MaxFloat64; linear shapes with |min|,|max| <= 1.6e308 and a range width max-min between 1e-290 and 1.6e308 (finite in float64) that is at least 1e-6 of max(|min|,|max|); LogHist values finite, of either sign and zero (non-positive values are below the first bin), positive ones from 5e-324 to MaxFloat64, LogHist max > 1; the bin count of a LogHist is taken from Counts() (the statement does not fix it)",
@@ -1365,7 +1632,14 @@ func c14Run(r *mon.Run) {
 		"lin:range-beyond-3.6e306", "log:sharp-within-1e-12-of-edge", "log:sharp-within-1e-12-below-edge",
 		"lin:zero-sample-outside-first-bin", "lin:first-sample-zero", "lin:first-sample-zero-outside-first-bin", "lin:zero-after-only-zeros-outside-first-bin",
 		"log:first-sample-zero", "log:first-sample-zero-outside-first-bin", "log:zero-after-only-zeros-outside-first-bin",
-		"lin:first-sample-extreme", "log:first-sample-extreme", "lin:sample-repeats-previous", "log:sample-repeats-previous")
+		"lin:first-sample-extreme", "log:first-sample-extreme", "lin:sample-repeats-previous", "log:sample-repeats-previous",
+		"wide:fake-bins>64", "wide:fake-bins>=1000", "wide:fake-bins>=4096", "wide:fake-bins>=10000", "wide:fake-total>=2^16", "wide:fake-total>=2^32",
+		"wide:fake-dense-every-bin-occupied", "wide:fake-sparse-under-quarter-occupied", "wide:fake-8-or-more-gaps-above-occupied-bins",
+		"wide:lin-bins>64", "wide:lin-bins>=1000", "wide:lin-bins>=4096", "wide:log-bins>64", "wide:log-bins>=1000",
+		"wide:lin-sparse-under-quarter-occupied", "wide:log-sparse-under-quarter-occupied", "wide:lin-dense-every-bin-occupied", "wide:log-dense-every-bin-occupied",
+		"wide:ranked-sample-beyond-bin-64", "wide:ranked-sample-beyond-bin-1024", "wide:ranked-sample-beyond-bin-4096",
+		"wide:ranked-sample-last-of-bin-empty-bin-above", "wide:ranked-sample-first-of-bin-empty-bin-below", "wide:ranked-sample-in-last-bin",
+		"wide:q=1-top-bin-empty", "wide:q>1/2-in-bins", "wide:stream>=10000")
 	if err := ref.HistSelfTest(); err != nil {
 		r.Inconclusive("reference self-test failed: " + err.Error())
 		return
@@ -1480,6 +1754,90 @@ func c14Run(r *mon.Run) {
 		c.QEvery = qevery(rng, L)
 		c14History(rng, &c, L)
 		c14Specials(rng, xs, true)
+		c.Xs = mon.Fs(xs)
+		c14JudgeHist(w, c)
+	})
+	// --- wide histograms and long streams ----------------------------------
+	fakeHi, binsHi, lenHi := r.Pick(70000, 300000), r.Pick(20000, 70000), r.Pick(30000, 200000)
+	r.Parallel("fake-wide", r.Pick(500, 6000), func(w *mon.W, i int) {
+		rng := w.Rng
+		nb := c14WideBins(rng, fakeHi)
+		heavy := rng.Intn(8) == 0
+		if heavy {
+			nb = rng.Range(1, 50) // few bins, very many samples
+		}
+		c := c14Case{Kind: "fake", Fn: rng.PickI(0, 2), QDerive: true, IQR: true}
+		if nb <= 3000 {
+			c.Fn = rng.Intn(3) // the geometric shape stays finite
+		}
+		c.Counts = c14WideCounts(rng, nb)
+		if heavy {
+			for k := rng.Range(1, 4); k > 0; k-- {
+				c.Counts[rng.Intn(nb)] += uint64(rng.LogUniform(1e4, 2e10))
+			}
+		}
+		binned := uint64(0)
+		for _, v := range c.Counts {
+			binned += v
+		}
+		side := func() uint64 {
+			switch rng.Intn(4) {
+			case 0:
+				return uint64(rng.Range(1, 5))
+			case 1:
+				return uint64(rng.LogUniform(1, float64(binned)+2))
+			}
+			return 0
+		}
+		c.Under, c.Over = side(), side()
+		total := c.Under + c.Over + binned
+		qs := c14Qs(rng, int(total))
+		qs = append(qs, c14BinEndQs(rng, c.Under, c.Counts, total)...)
+		c.Qs = mon.Fs(qs)
+		c14JudgeFake(w, c)
+	})
+	r.Parallel("lin-wide", r.Pick(120, 1200), func(w *mon.W, i int) {
+		rng := w.Rng
+		min, max, n := c14LinShape(rng)
+		if !(min < max) || (max-min)/math.Max(math.Abs(min), math.Abs(max)) < 9e-7 {
+			return
+		}
+		L := 0
+		if rng.Intn(5) == 0 {
+			L = c14WideLen(rng, 501, 3*lenHi) // 1..50 bins, a long stream
+		} else {
+			n = c14WideBins(rng, binsHi)
+			L = c14WideLen(rng, 1, lenHi)
+		}
+		c := c14Case{Kind: "lin", Min: mon.F(min), Max: mon.F(max), NBins: n, Grid: true, QDerive: true, IQR: true}
+		xs := c14LinValues(rng, min, max, n, L)
+		c14Spread(rng, xs, func(u float64) float64 { return min + (max-min)*u })
+		c.Qs = mon.Fs(c14Qs(rng, L))
+		c14WideHistory(rng, &c, n, L)
+		c14Specials(rng, xs, true)
+		c.Xs = mon.Fs(xs)
+		c14JudgeHist(w, c)
+	})
+	r.Parallel("log-wide", r.Pick(100, 1000), func(w *mon.W, i int) {
+		rng := w.Rng
+		b, m, max, n := c14LogShape(rng)
+		L := 0
+		if rng.Intn(5) == 0 {
+			L = c14WideLen(rng, 501, 3*lenHi)
+		} else {
+			// up to the widest LogHist of this base and m whose top edge is a float64
+			nmax := int(float64(m)*math.Log(1.7e308)/math.Log(float64(b))) - 1
+			n = c14WideBins(rng, nmax)
+			max = math.Pow(float64(b), (float64(n-1)+rng.Uniform(0.02, 0.98))/float64(m))
+			L = c14WideLen(rng, 1, lenHi)
+		}
+		c := c14Case{Kind: "log", B: b, M: m, Max: mon.F(max), Grid: true, QDerive: true, IQR: true}
+		xs := c14LogValues(rng, b, m, n, L)
+		lt := float64(n) / float64(m) * math.Log(float64(b))
+		c14Spread(rng, xs, func(u float64) float64 { return math.Exp(u * lt) })
+		c.Qs = mon.Fs(c14Qs(rng, L))
+		c14WideHistory(rng, &c, n, L)
+		c14Specials(rng, xs, false)
 		c.Xs = mon.Fs(xs)
 		c14JudgeHist(w, c)
 	})
